@@ -162,6 +162,19 @@ CLAIMED["C10"] = dict(
     note=NOTE_COMMON + "; h5py replaced by an in-memory tree that returns what was written after casting to the dataset/attribute "
          "dtype (int truncates); native replays and the dtype harness use the real h5py on scratch files",
 )
+CLAIMED["C09"] = dict(
+    text="The real OVF writer and reader run on symbolic payloads through an in-memory file of header bytes and typed data "
+         "chunks (bin8 identity, bin4 = uninterpreted float32 rounding): region, mesh unit, counts, component count, unit (incl. "
+         "None), labels (incl. underscores/digits), subregions via the JSON side-car, and every value of the reloaded field; an "
+         "independent decoder written from the OVF specification reads what the library wrote (header keys, x-fastest order), "
+         "an independent OVF 1.0/2.0 encoder (big/little endian, 4/8 byte, text) is read back to its payload; several files of "
+         "one stem keep their own side-cars; the check-value comparison is decided as an IEEE bit-vector/FP lemma by z3; "
+         "every single-bit / byte corruption of the check value and every truncation point of the data block is swept "
+         "natively; text representation and the repository's sample files natively against the independent decoder.",
+    ref="DESIGN.md section 2 / C09",
+    note=NOTE_COMMON + "; geometry is concrete (text header); open/np.fromfile/tobytes in io/ovf.py replaced by an in-memory typed-chunk "
+         "file; text formatting exactness of CPython/pandas only natively to 1e-9",
+)
 PENDING_REASON = "check not built yet in this round (planned: DESIGN.md section 2); not claimed until it runs green"
 NA = {}
 
